@@ -89,16 +89,19 @@ def flat_isect(sk, *xs):
     a, b = Fiber(ac, [1] * na), Fiber(bc, [1] * nb)
     a.getRankAttrs().setId("K")
     b.getRankAttrs().setId("K")
+    types = sk.get("types") or ["iter", "intersect_0", "intersect_1"]      # any subset of trace types may be registered
     Metrics.beginCollect()
-    for ty in ("iter", "intersect_0", "intersect_1"):
+    for ty in types:
         Metrics.trace("K", type_=ty, consumable=True)
     seen = []
     for k, (av, bv) in a & b:
         seen.append(k)
-    tr = {ty: Metrics.consumeTrace("K", ty) for ty in ("iter", "intersect_0", "intersect_1")}
+    tr = {ty: Metrics.consumeTrace("K", ty) for ty in types}
     Metrics.endCollect()
     ra, rb = _merge_rows(ac, bc)
     for ty, want in (("intersect_0", ra), ("intersect_1", rb), ("iter", [(c, i) for i, c in enumerate(seen)])):
+        if ty not in types:
+            continue
         rows = tr[ty]
         if not want:
             if rows not in ([], [_hdr(["K"])]):
@@ -231,6 +234,78 @@ def nest(sk, *xs):
     return True
 
 
+def nest_range(sk, lo, hi, *xs):
+    """depth-2 nest whose inner co-iteration is walked with iterRange(lo, hi) / iterActive: every outer iteration's accesses land in the
+    same intersect_0/1 traces (labels restart per outer iteration), rows follow the merge up to the point where the consumer stops"""
+    M, K = sk["adims"]
+    A = [[xs[m * K + k] for k in range(K)] for m in range(M)]
+    B = sk["B"]
+    reset_metrics()
+    a = kernels.mk_tensor(["M", "K"], A, False)
+    b = kernels.mk_tensor(["K"], B, False)
+    Metrics.beginCollect()
+    for ty in ("iter", "intersect_0", "intersect_1"):
+        Metrics.trace("K", type_=ty, consumable=True)
+    Metrics.trace("M", type_="iter", consumable=True)
+    bodies = []
+    for m, a_k in a.getRoot():
+        z = a_k & b.getRoot()
+        if sk["mode"] == "active":
+            z.setActive((lo, hi))
+            it = z.iterActive()
+        else:
+            it = z.iterRange(lo, hi)
+        for k, (a_val, b_val) in it:
+            bodies.append((m, k))
+    tr = {ty: Metrics.consumeTrace("K", ty) for ty in ("iter", "intersect_0", "intersect_1")}
+    Metrics.consumeTrace("M", "iter")
+    Metrics.endCollect()
+    bpres = [k for k in range(K) if B[k] != 0]
+    exp0, exp1, expi = [], [], []
+    for m in range(M):
+        apres = [k for k in range(K) if A[m][k] != 0]
+        if not apres:
+            continue
+        i = j = 0
+        stopped = False
+        n = 0
+        while i < len(apres) and j < len(bpres):
+            if apres[i] == bpres[j]:
+                exp0.append((m, apres[i])); exp1.append((m, bpres[j]))
+                c = apres[i]
+                i += 1; j += 1
+                if c >= hi:
+                    stopped = True          # the consumer breaks on the first delivered coordinate >= hi: the merge is abandoned
+                    break
+                if c >= lo:
+                    expi.append((m, c, n))
+                n += 1
+            elif apres[i] < bpres[j]:
+                exp0.append((m, apres[i])); i += 1
+            else:
+                exp1.append((m, bpres[j])); j += 1
+        if not stopped:
+            if i < len(apres):
+                exp0.append((m, apres[i]))
+            if j < len(bpres):
+                exp1.append((m, bpres[j]))
+    if bodies != [(m, c) for m, c, _ in expi]:
+        return fail("loop bodies %r, expected %r" % (bodies, [(m, c) for m, c, _ in expi]))
+    for ty, want in (("intersect_0", exp0), ("intersect_1", exp1)):
+        rows = tr[ty]
+        body = rows[1:] if rows else []
+        if [(r[2], r[3]) for r in body] != want:
+            return fail("%s rows %r do not match the accesses %r (one row per traced access, every outer iteration in the same trace)" % (ty, [(r[2], r[3]) for r in body], want))
+        if not _ordered(body, 2, False):
+            return fail("%s stamps out of order" % ty)
+    body = tr["iter"][1:] if tr["iter"] else []
+    if [(r[2], r[3]) for r in body] != [(m, c) for m, c, _ in expi]:
+        return fail("K iter rows do not match the loop bodies")
+    if not _ordered(body, 2, True):
+        return fail("K iter stamps not strictly increasing: %r" % (body,))
+    return True
+
+
 def inserting(sk, *xs):
     """inserting populate: destination-side traces only need to be stamp-ordered and complete; source side addressed exactly"""
     nz, na = sk["nz"], sk["na"]
@@ -335,12 +410,20 @@ def obligations(tier):
         for nb in range(N + 1):
             an, bn = names("a", na), names("b", nb)
             obs.append(Ob("flat/isect/%dx%d" % (na, nb), "flat_isect", dict(na=na, nb=nb), an + bn, chain_pre(an) + chain_pre(bn)))
+            if na and nb:
+                for types in (["intersect_0"], ["intersect_1"], ["iter"], ["intersect_1", "iter"]):
+                    obs.append(Ob("flat/isect/%dx%d/only-%s" % (na, nb, "+".join(types)), "flat_isect", dict(na=na, nb=nb, types=types), an + bn,
+                                  chain_pre(an) + chain_pre(bn)))
     for B in ([[2, 0, 3], [1, 1, 1]] if q else [[2, 0, 3], [1, 1, 1], [0, 0, 0], [0, 4, 0]]):
         obs.append(Ob("nest/mv2x3/%s" % "".join(map(str, B)), "nest", dict(adims=[2, 3], B=B), names("v", 6), []))
     ob = Ob("nest/mv2x3/explicit/230", "nest", dict(adims=[2, 3], B=[2, 3, 0], explicit=True), names("v", 6), [])
     v = names("v", 6)
     ob.tags["drift"] = "%s or %s or ((%s) and not (%s))" % (_drift(v[:3]), _drift(v[3:]), " and ".join("%s == 0" % x for x in v[:3]), " and ".join("%s == 0" % x for x in v[3:]))
     obs.append(ob)
+    for mode in ("range", "active"):
+        obs.append(Ob("nest-range/%s/mv2x3/111" % mode, "nest_range", dict(adims=[2, 3], B=[1, 1, 1], mode=mode), ["lo", "hi"] + names("v", 6), ["lo <= hi"]))
+        if not q:
+            obs.append(Ob("nest-range/%s/mv2x3/203" % mode, "nest_range", dict(adims=[2, 3], B=[2, 0, 3], mode=mode), ["lo", "hi"] + names("v", 6), ["lo <= hi"]))
     for nz, na in ([(1, 1), (2, 1), (1, 2)] if q else [(1, 1), (2, 1), (1, 2), (2, 2)]):
         zn, an = names("z", nz), names("a", na)
         obs.append(Ob("inserting/%dx%d" % (nz, na), "inserting", dict(nz=nz, na=na, S=8), zn + an, chain_pre(zn) + chain_pre(an) + bound_pre(zn + an, 0, 8)))
